@@ -62,11 +62,13 @@ Absent(ev, u, x) == ev[x].e = "State" /\ ~\E t \in SeqSet(ev[x].tasks) : t.uid =
 RealRuns(ev, u, j) == {s \in 1..(j - 1) : ev[s].e = "Spawn" /\ ev[s].uid = u /\ ~ev[s].norun /\ ~\E x \in (s + 1)..(j - 1) : Absent(ev, u, x)}
 StillRunning(ev, s, j) == ~\E x \in (s + 1)..(j - 1) : ev[x].e = "Exit" /\ ev[x].pid = ev[s].pid
 NotYetReaped(ev, s, j) == ~\E x \in (s + 1)..(j - 1) : ev[x].e = "Deliver" /\ ev[x].k = "chld" /\ ev[x].pid = ev[s].pid
+(* the daemon has had every chance to learn of the end of run s: the job has ended and there was a moment with nothing left to dispatch *)
+HadChance(ev, s, j) == \E x \in (s + 1)..(j - 1) : ev[x].e = "Exit" /\ ev[x].pid = ev[s].pid /\ \E y \in (x + 1)..(j - 1) : ev[y].e = "State" /\ ev[y].pending = <<>>
 SpawnLimitOk(ev, j) ==
   LET u == ev[j].uid
       N == LimitAt(ev, u, j)
       running == Cardinality({s \in RealRuns(ev, u, j) : StillRunning(ev, s, j)})
-      known   == Cardinality({s \in RealRuns(ev, u, j) : NotYetReaped(ev, s, j)})
+      known   == Cardinality({s \in RealRuns(ev, u, j) : NotYetReaped(ev, s, j) /\ ~HadChance(ev, s, j)})
   IN IF N = 0 THEN known < 62 => ~ev[j].norun          \* unset = unlimited
      ELSE /\ ~ev[j].norun => running < N                \* never more than N at the same time
           /\ running >= N => ev[j].norun                \* due while N are running: reported as not run
